@@ -104,4 +104,81 @@ theorem yield_exact (p : Prog) (pc : Nat) (m : Mem) (a : Arg) (x : Nat)
     Reach (sphinx p) ⟨pc, m⟩ [Ev.out (x % 256)] ⟨pc + 1, m⟩ := by
   simpa [evl] using Reach.of_next (sys := sphinx p) (step_yld (m := m) hc ha)
 
+/-! ## The specification function itself: `decimalW` is decimal notation, for every word
+
+`write_int_correct` says the routine emits `decimalW M v`. The spot values above check the specification on four words;
+the theorems below check it on all of them: what is printed consists of digits (and a leading `-`), has no leading zero,
+and read back as a number gives the word that was printed - so the specification cannot be a function that is wrong
+outside the sampled values, and distinct words print distinct texts. -/
+/-- reading decimal text back: the value of a digit string -/
+def valOf (ds : List Nat) : Nat := ds.foldl (fun a d => a * 10 + (d - 48)) 0
+/-- reading the output of `write(int)` back as a word: a leading `-` negates modulo `M` -/
+def readBack (M : Nat) : List Nat → Nat
+  | 45 :: ds => (M - valOf ds) % M
+  | ds => valOf ds
+
+theorem valOf_append (ds : List Nat) (d : Nat) : valOf (ds ++ [d]) = valOf ds * 10 + (d - 48) := by
+  simp [valOf, List.foldl_append]
+
+/-- the specification function produces digits only -/
+theorem digits_range (n : Nat) : ∀ d ∈ digits n, 48 ≤ d ∧ d ≤ 57 := by
+  induction n using Nat.strongRecOn with
+  | _ n ih =>
+    by_cases h : n < 10
+    · rw [digits_lt n h]; intro d hd; simp at hd; omega
+    · rw [digits_ge n h]; intro d hd
+      rcases List.mem_append.mp hd with hd | hd
+      · exact ih (n / 10) (by omega) d hd
+      · simp at hd; omega
+
+/-- ... and it is decimal notation: read back, the digits give the number - for every number -/
+theorem valOf_digits (n : Nat) : valOf (digits n) = n := by
+  induction n using Nat.strongRecOn with
+  | _ n ih =>
+    by_cases h : n < 10
+    · rw [digits_lt n h]; simp [valOf]
+    · rw [digits_ge n h, valOf_append, ih (n / 10) (by omega)]; omega
+
+/-- no leading zero except for zero itself -/
+theorem digits_head (n : Nat) : (digits n).head? = some 48 → n = 0 := by
+  induction n using Nat.strongRecOn with
+  | _ n ih =>
+    by_cases h : n < 10
+    · rw [digits_lt n h]; simp
+    · rw [digits_ge n h]
+      have hp := digits_pos (n / 10)
+      cases hd : digits (n / 10) with
+      | nil => simp [hd] at hp
+      | cons x xs =>
+        intro hh; simp at hh
+        have := ih (n / 10) (by omega) (by simp [hd, hh])
+        omega
+
+/-- **what `write(int)` prints determines the word**: for every even modulus and every word `v`, reading the
+specified text back gives `v` - so two different values never print the same text, the sign is printed exactly for
+the words `≥ M/2`, and the most negative value (whose absolute value does not fit) is covered too -/
+theorem decimalW_reads_back (M v : Nat) (hM : M % 2 = 0) (hv : v < M) : readBack M (decimalW M v) = v := by
+  unfold decimalW
+  split
+  · have hr := digits_range v
+    cases hd : digits v with
+    | nil => have := digits_pos v; simp [hd] at this
+    | cons x xs =>
+      have hx := hr x (by simp [hd])
+      have : x ≠ 45 := by omega
+      unfold readBack
+      split
+      · next h => simp at h; omega
+      · rw [← hd, valOf_digits]
+  · simp only [readBack, valOf_digits]
+    have : M - (M - v) = v := by omega
+    rw [this, Nat.mod_eq_of_lt hv]
+
+theorem decimalW_injective (M a b : Nat) (hM : M % 2 = 0) (ha : a < M) (hb : b < M)
+    (h : decimalW M a = decimalW M b) : a = b := by
+  rw [← decimalW_reads_back M a hM ha, ← decimalW_reads_back M b hM hb, h]
+
+example : readBack (256 ^ 2) (decimalW (256 ^ 2) 32768) = 32768 ∧ readBack (256 ^ 2) [45, 49] = 65535 := by
+  refine ⟨decimalW_reads_back _ _ (by decide) (by decide), by decide⟩
+
 end HidVerif.Props.C17
